@@ -38,7 +38,9 @@ ASSUMPTIONS = [
     'the reference semantics (vlib/refsem.py) is my reading of the '
     'documentation and of the statement; every disagreement on the unchanged '
     'tree was triaged by hand (DESIGN.md section 5)',
-    'not judged (Unspecified): duplicate and merge keys, aliases, explicit '
+    'aliases stand for a copy of the anchored node (expanded by the '
+    'reference before anything else; self-referential ones are rejected)',
+    'not judged (Unspecified): duplicate and merge keys, explicit '
     'class tags on enum/string-like scalars, core tags that disagree with '
     'the node kind, !!binary/!!set/... scalars below Any, Any inside a '
     'Union, annotations naming unregistered classes, sabotaging savorizers',
